@@ -180,6 +180,11 @@ PROPS = {
     ),
 }
 
+# the large-magnitude part (spec/Big.tla over digit sequences: 10^33 credits next to 10^-6) of the properties whose
+# quantifier names "very large values / totals"; C11 gets the oldest-first clause on such amounts
+for _p in ("C01", "C02", "C04", "C05", "C11"):
+    PROPS[_p] = dict(family="eco", parts=[PROPS[_p], dict(family="big")])
+
 HOOK_COMMITS = ["65ff9943f"]
 
 NOT_APPLICABLE = {}
@@ -190,15 +195,16 @@ _MC = ("TLC model-checks the property's TLA+ formulas exhaustively on bounded co
        "(spec/*.tla); TLC-generated behaviours, a code-led random driver and per-step probes are executed on the real keepers "
        "through ABCI, and TLC evaluates the same formulas on every recorded real state and step (trace validation), together with "
        "step-by-step conformance of the code to the specification. ")
+_BIG = ("The quantifier's very large values are decided by a second part: spec/Big.tla restates the ledger and the basket over decimal STRINGS computed on digit sequences (Dec.tla), is model-checked to a small depth over a pool from 10^-6 to 10^34 credits, and TLC-generated behaviours over that pool are executed on the real keepers and validated by TLC on the rows as stored (TraceBig.tla), with conformance to Big!Apply. ")
 _NOTE = ("Trusted: TLC, the Go toolchain, cosmos-sdk baseapp/IAVL/x-bank, the harness projector and concretiser (harness/*.go). "
-         "Bounded: small constants for the exhaustive runs; sampled behaviours (seeded) for the code; amounts beyond 2^30 normalised units "
-         "are dropped, not judged.")
+         "Bounded: small constants for the exhaustive runs; sampled behaviours (seeded) for the code; in the integer-unit model amounts beyond 2^30 normalised units "
+         "are dropped, not judged (C01, C02, C04, C05 judge very large amounts in the digit-sequence model Big.tla instead).")
 TEXT = {
-    "C01": dict(text=_MC + "Conservation is a state invariant over all ledgers, so it is evaluated after every message and block of every executed history, which is the quantifier the property asks for.", technique="TLA+ spec + TLC model checking + TLC trace validation (state invariant over projected ORM/bank state)"),
-    "C02": dict(text=_MC + "The issued amount is a ghost variable of the specification recomputed by TLC from the logged events, never by the harness.", technique="TLA+ ghost ledger + TLC model checking + trace validation"),
+    "C01": dict(text=_MC + _BIG + "Conservation is a state invariant over all ledgers, so it is evaluated after every message and block of every executed history, which is the quantifier the property asks for.", technique="TLA+ spec + TLC model checking + TLC trace validation (state invariant over projected ORM/bank state)"),
+    "C02": dict(text=_MC + _BIG + "The issued amount is a ghost variable of the specification recomputed by TLC from the logged events, never by the harness.", technique="TLA+ ghost ledger + TLC model checking + trace validation"),
     "C03": dict(text=_MC + "Ownership safety is a step property over the signer set msg.GetSigners() logged with each real message, with the two exceptions the property states.", technique="TLA+ action property over logged signers + TLC model checking + trace validation"),
-    "C04": dict(text=_MC + "Monotonicity is an action property checked on every real step, failed messages included.", technique="TLA+ action property + TLC model checking + trace validation"),
-    "C05": dict(text=_MC + "The real x/bank keeper mints and burns; basket tokens are normalised with the credit unit so that backing is an equation TLC can evaluate.", technique="TLA+ spec of basket + bank + TLC model checking + trace validation"),
+    "C04": dict(text=_MC + _BIG + "Monotonicity is an action property checked on every real step, failed messages included.", technique="TLA+ action property + TLC model checking + trace validation"),
+    "C05": dict(text=_MC + _BIG + "The real x/bank keeper mints and burns; basket tokens are normalised with the credit unit so that backing is an equation TLC can evaluate.", technique="TLA+ spec of basket + bank + TLC model checking + trace validation"),
     "C06": dict(text=_MC + "Escrow = open orders is an invariant; 'allowed when written' is an action property against the pre-state allow list.", technique="TLA+ invariant + action property + TLC model checking + trace validation"),
     "C07": dict(text=_MC + "Settlement is checked with exact rational arithmetic over naturals and the property's own one-unit tolerances, not equality with the specification.", technique="TLA+ action properties with cross-multiplied rational bounds + TLC model checking + trace validation"),
     "C08": dict(text=_MC + "Every gated message is tried by every account in every role assignment of the bounded configurations; footprints are frame conditions on the state record.", technique="TLA+ role predicates and frame conditions + TLC model checking + trace validation (ecocredit and data)"),
